@@ -129,12 +129,13 @@ impl<H: HashChain> HssPrivateKey<H> {
             // For the intermediate and root trees all other trees on top need to be taken into
             // account. Thus, the top tree total count needs to be multiplied with free leafs of
             // the current level.
+            // Saturate instead of overflowing for parameter sets with a total height above 63
             for subtree_total_lmots_keys in &trees_total_lmots_keys {
-                free_lmots_keys *= subtree_total_lmots_keys;
+                free_lmots_keys = free_lmots_keys.saturating_mul(*subtree_total_lmots_keys);
             }
             trees_total_lmots_keys.push(total_lmots_keys);
 
-            lifetime += free_lmots_keys;
+            lifetime = lifetime.saturating_add(free_lmots_keys);
         }
         lifetime
     }
